@@ -233,7 +233,8 @@ func (e *env) advance(u *upload) bool {
 		if q != "" {
 			url += "&" + q
 		}
-		rs := e.do(vh.Req{Method: "POST", URL: url, Body: u.content})
+		// every other monolithic upload is streamed (no Content-Length): verification does not depend on the announced length
+		rs := e.do(vh.Req{Method: "POST", URL: url, Body: u.content, UnknownLen: len(u.content)%2 == 1})
 		return finish(rs.Status)
 	}
 	if u.loc == "" {
